@@ -22,7 +22,7 @@ ASSUMPTIONS = [
     "input without negative values (the statement's quantifier); label values below 2^63 (the third-party cc3d backend raises OverflowError beyond, which is outside panoptica)",
 ]
 MINIMUM = {"C05.checked": 3000, "f:C05.more_than_255_components": 2}
-BUDGET_S = {"quick": 600, "thorough": 900}
+BUDGET_S = {"quick": 1200, "thorough": 900}
 
 BIN = {
     # name: (shape, alphabet, quick?)
